@@ -62,6 +62,9 @@ var decPreludes = func() []decPrelude {
 	for _, k := range []string{"cose", "cbor", "json", "shapecbor", "shapejson", "swcbor"} {
 		for _, p := range []string{"p1", "p2", "xp2"} {
 			out = append(out, decPrelude{k, p, "truncsweep"})
+			if p == "p1" && (k == "json" || k == "shapejson" || k == "cbor" || k == "shapecbor") {
+				out = append(out, decPrelude{k, "xp2", "floodsweep"})
+			}
 			if k != "json" && k != "shapejson" {
 				out = append(out, decPrelude{k, p, "headsweep"})
 			}
@@ -284,6 +287,38 @@ func applyDecFault(s *decSlot, op Op, donor []byte, cfg *DecCfg) bool {
 			depth = 200000
 		}
 		var nest []byte
+		if isJSONKind(s.kind) && abs(op.B)%8 >= 6 {
+			// well-formed, deep AND wide: d levels of brackets around k scalars (d < encoding/json's limit)
+			d := depth
+			if d > 9000 {
+				d = 9000
+			}
+			k := []int{10, 1000, 8000, 20000}[abs(op.C)%4]
+			for 2*d+2*k > 64000 {
+				k /= 2
+			}
+			var sb strings.Builder
+			if abs(op.B)%8 == 6 {
+				sb.WriteString(strings.Repeat("[", d))
+				sb.WriteString(strings.TrimSuffix(strings.Repeat("0,", k), ","))
+				sb.WriteString(strings.Repeat("]", d))
+			} else {
+				sb.WriteString(strings.Repeat(`{"a":`, d/3+1))
+				sb.WriteString("[" + strings.TrimSuffix(strings.Repeat("0,", k), ",") + "]")
+				sb.WriteString(strings.Repeat("}", d/3+1))
+			}
+			nest = []byte(sb.String())
+			root, ok := parseJSONTree(target)
+			if !ok || root.kind != 'o' || len(root.kids) == 0 {
+				nb, fired = nest, true
+				break
+			}
+			root.kids[abs(op.C)%len(root.kids)] = &jnode{kind: 'v', raw: string(nest)}
+			var out bytes.Buffer
+			root.write(&out)
+			nb, fired = out.Bytes(), true
+			break
+		}
 		if isJSONKind(s.kind) {
 			open := []string{"[", `{"a":`, "[", "[[", `{"psa-nonce":`, `[{"x":`}[abs(op.B)%6]
 			nest = []byte(strings.Repeat(open, depth))
@@ -805,6 +840,53 @@ func (decWorld) Exec(prop string, t *Trace) *Result {
 			res.Faults["net.truncate"] += len(s.cur)
 			res.Probes["truncsweep_offsets"] += len(s.cur)
 			shape += "truncsweep" + s.kind
+		case "floodsweep":
+			// hundreds of small, legal documents of one kind, every one with a few dozen members no
+			// struct consumes and whose names never repeat: what a call allocates must not depend on
+			// what earlier calls decoded
+			s := slots[op.T]
+			if s == nil {
+				break
+			}
+			if journal {
+				fmt.Fprintf(os.Stderr, "AT %d\n", i)
+			}
+			for n := 0; n < 700; n++ {
+				if journal && n%64 == 63 {
+					fmt.Fprintf(os.Stderr, "AT %d\n", i)
+				}
+				var doc []byte
+				if isJSONKind(s.kind) {
+					j := bytes.LastIndexByte(s.cur, '}')
+					if j < 0 {
+						break
+					}
+					var sb bytes.Buffer
+					sb.Write(s.cur[:j])
+					for k := 0; k < 40; k++ {
+						fmt.Fprintf(&sb, `,"f%d_%d":%d`, n, k, k)
+					}
+					sb.Write(s.cur[j:])
+					doc = sb.Bytes()
+				} else {
+					h, err := readHead(s.cur, 0)
+					if err != nil || h.Major != 5 || h.Info == 31 {
+						break
+					}
+					doc = append([]byte{}, encodeHead(5, h.Arg+40)...)
+					doc = append(doc, s.cur[h.HLen:]...)
+					for k := 0; k < 40; k++ {
+						doc = append(doc, encodeHead(0, uint64(300000+n*40+k))...)
+						doc = append(doc, 0x00)
+					}
+				}
+				if receive(res, prop, i, doc, st, bud) {
+					nontrivial++
+				}
+			}
+			res.Faults["byz.members"] += 700
+			res.Probes["floodsweep_documents"] += 700
+			shape += "floodsweep" + s.kind
 		case "headsweep":
 			s := slots[op.T]
 			if s == nil {
